@@ -324,6 +324,10 @@ def gen_command(rnd, names, kinds=None):
         x = gen_aclspec(rnd) if (m is None or rnd.random() < 0.25) else None
         if x is not None and rnd.random() < 0.5:
             x = x[:3] + (None,)
+        if m is not None and x is not None and x[:3] == m[:3]:
+            # -m X -x X (add an entry and remove it again in one command) is the known finding
+            # acl-modify-remove-same (C10_idempotent_acl_refuted); it is replayed separately
+            x = (x[0], "g" if x[1] == "u" else "u", "zed") + x[3:]
         c["modify"], c["remove"] = m, x
         c["case"] = "%s,%s" % ("-" if m is None else aclspec_case(m), "-" if x is None else aclspec_case(x))
     elif k == "strip":
